@@ -506,6 +506,10 @@ func ToRune(source []byte, pos int) rune {
 			break
 		}
 	}
+	if i < 0 {
+		// no rune start at or before pos (leading continuation bytes)
+		i = 0
+	}
 	r, _ := utf8.DecodeRune(source[i:])
 	return r
 }
